@@ -3,15 +3,17 @@
 // Op lines
 //   f <sexpr>                      build the formula bottom-up through the public API and dump the result
 //   pw e<k>:<sexpr>;e<k>:<sexpr>…  piecewise({(e_k, cond)…})
-//   dom <n> <elems,> <conj;conj…>  oracle-only: logical_and({Contains(x, FiniteSet), conj…}) (FiniteSet-domain rule)
-// sexpr := T | F | a<i> | n<i> | m<i> | (and s…) | (or s…) | (xor s…) | (not s) | (nand s…) | (nor s…) | (xnor s…)
+// sexpr := T | F | a<i> | n<i> | m<i> | x<c | x>=c | x<=c | x>c | x=c | x!=c | x@lo,hi | x#e,e,… | (and s…) | (or s…) | (xor s…) | (not s) | (nand s…) | (nor s…) | (xnor s…)
 //   a<i>/n<i> : a relational atom over its own two symbols and the complementary relational
 //               (i%4: Lt(x,y)/Le(y,x), Le(x,y)/Lt(y,x), Eq(x,y)/Ne(x,y), Ne(x,0)/Eq(x,0))
 //   m<i>      : Contains(z_i, Interval(0,1)) (closed for even i, open for odd i)
+//   x…        : atoms over the one symbol x with integer constants: Lt(x,c)/Le(c,x), Le(x,c)/Lt(c,x), Eq/Ne(x,c),
+//               x@lo,hi = Contains(x, Interval[lo,hi]), x#… = Contains(x, FiniteSet{…}) (triggers the FiniteSet-domain
+//               rule of and_or<And>)
 // Output: canonical dump  T F a<i> n<i> m<i> (& …) (| …) (^ …) (! s), children sorted as strings.
 //
 // Oracle (independent of the Lean model): the full truth table over the atoms of the recipe.  For every assignment
-// the recipe's value (evaluated on the S-expression with the textbook semantics) must equal (1) the value of the
+// (and every relevant integer value of x) the recipe's value (textbook semantics on the S-expression) must equal (1) the value of the
 // result object evaluated structurally (atoms by identity, complementary atoms tied) and (2) the BooleanAtom obtained
 // by substituting numbers for the symbols such that every atom takes its assigned value.
 #include "common.h"
@@ -141,8 +143,156 @@ static const AtomTab &atoms()
     return t;
 }
 
+// ---------------------------------------------------------------- atoms over the symbol x
+static bool parseLongs(const std::string &s, std::vector<long> &out)
+{
+    if (s.empty())
+        return false;
+    for (auto &p : split(s, ',')) {
+        if (p.empty())
+            return false;
+        char *end = nullptr;
+        long v = strtol(p.c_str(), &end, 10);
+        if (*end)
+            return false;
+        if (v < -16 || v >= 48)
+            return false;
+        out.push_back(v);
+    }
+    return true;
+}
+struct XAtom {
+    std::string op; // < >= <= > = != @ #
+    std::vector<long> c;
+};
+static bool parseXAtom(const std::string &l, XAtom &a)
+{
+    if (l.size() < 3 || l[0] != 'x')
+        return false;
+    static const char *ops[] = {"<=", ">=", "!=", "<", ">", "=", "@", "#"};
+    for (auto o : ops) {
+        size_t n = strlen(o);
+        if (l.compare(1, n, o) == 0) {
+            a.op = o;
+            a.c.clear();
+            if (!parseLongs(l.substr(1 + n), a.c))
+                return false;
+            if (a.op == "#")
+                return true;
+            if (a.op == "@")
+                return a.c.size() == 2 && a.c[0] < a.c[1];
+            return a.c.size() == 1;
+        }
+    }
+    return false;
+}
+static bool evalXAtom(const XAtom &a, long x)
+{
+    if (a.op == "<")
+        return x < a.c[0];
+    if (a.op == ">=")
+        return x >= a.c[0];
+    if (a.op == "<=")
+        return x <= a.c[0];
+    if (a.op == ">")
+        return x > a.c[0];
+    if (a.op == "=")
+        return x == a.c[0];
+    if (a.op == "!=")
+        return x != a.c[0];
+    if (a.op == "@")
+        return a.c[0] <= x && x <= a.c[1];
+    return std::find(a.c.begin(), a.c.end(), x) != a.c.end();
+}
+static RCP<const Boolean> buildXAtom(const XAtom &a)
+{
+    RCP<const Basic> x = symbol("x");
+    if (a.op == "#") {
+        set_basic e;
+        for (long v : a.c)
+            e.insert(integer(v));
+        return contains(x, finiteset(e));
+    }
+    if (a.op == "@")
+        return contains(x, interval(integer(a.c[0]), integer(a.c[1])));
+    RCP<const Basic> k = integer(a.c[0]);
+    if (a.op == "<")
+        return Lt(x, k);
+    if (a.op == ">=")
+        return Ge(x, k);
+    if (a.op == "<=")
+        return Le(x, k);
+    if (a.op == ">")
+        return Gt(x, k);
+    if (a.op == "=")
+        return Eq(x, k);
+    return Ne(x, k);
+}
+// canonical name of a result object that is an atom over x ("" otherwise)
+static std::string xAtomName(const Basic &b)
+{
+    RCP<const Basic> X = symbol("x");
+    auto isInt = [](const RCP<const Basic> &a, long &v) {
+        if (is_a<Integer>(*a)) {
+            v = down_cast<const Integer &>(*a).as_int();
+            return true;
+        }
+        return false;
+    };
+    if (is_a<StrictLessThan>(b) || is_a<LessThan>(b) || is_a<Equality>(b) || is_a<Unequality>(b)) {
+        const Relational &r = down_cast<const Relational &>(b);
+        long c = 0;
+        bool xl = eq(*r.get_arg1(), *X) && isInt(r.get_arg2(), c);
+        bool xr = !xl && eq(*r.get_arg2(), *X) && isInt(r.get_arg1(), c);
+        if (!xl && !xr)
+            return "";
+        std::string op;
+        if (is_a<StrictLessThan>(b))
+            op = xl ? "<" : ">";
+        else if (is_a<LessThan>(b))
+            op = xl ? "<=" : ">=";
+        else if (is_a<Equality>(b))
+            op = "=";
+        else
+            op = "!=";
+        return "x" + op + std::to_string(c);
+    }
+    if (is_a<Contains>(b)) {
+        const Contains &c = down_cast<const Contains &>(b);
+        if (!eq(*c.get_expr(), *X))
+            return "";
+        RCP<const Set> s = c.get_set();
+        if (is_a<Interval>(*s)) {
+            const Interval &iv = down_cast<const Interval &>(*s);
+            long lo, hi;
+            if (iv.get_left_open() || iv.get_right_open() || !isInt(iv.get_start(), lo) || !isInt(iv.get_end(), hi))
+                return "";
+            return "x@" + std::to_string(lo) + "," + std::to_string(hi);
+        }
+        if (is_a<FiniteSet>(*s)) {
+            std::vector<long> v;
+            for (auto &e : down_cast<const FiniteSet &>(*s).get_container()) {
+                long k;
+                if (!isInt(e, k))
+                    return "";
+                v.push_back(k);
+            }
+            std::sort(v.begin(), v.end());
+            std::string o = "x#";
+            for (size_t i = 0; i < v.size(); i++)
+                o += (i ? "," : "") + std::to_string(v[i]);
+            return o;
+        }
+    }
+    return "";
+}
+
 static bool leafOk(const std::string &l)
 {
+    if (!l.empty() && l[0] == 'x') {
+        XAtom a;
+        return parseXAtom(l, a);
+    }
     if (l == "T" || l == "F")
         return true;
     if (l.size() < 2 || (l[0] != 'a' && l[0] != 'n' && l[0] != 'm'))
@@ -181,6 +331,11 @@ static RCP<const Boolean> build(const Node &n)
             return boolTrue;
         if (n.leaf == "F")
             return boolFalse;
+        if (n.leaf[0] == 'x') {
+            XAtom a;
+            parseXAtom(n.leaf, a);
+            return buildXAtom(a);
+        }
         int i = std::stoi(n.leaf.substr(1));
         if (n.leaf[0] == 'm')
             return memAtom(i);
@@ -208,6 +363,7 @@ static RCP<const Boolean> build(const Node &n)
 
 // textbook semantics of the recipe
 typedef std::map<std::string, bool> Assign; // "a<i>" -> value of the positive form, "m<i>" -> value
+static long g_x = 0;                        // the value of the symbol x under the current assignment
 static bool evalRecipe(const Node &n, const Assign &as)
 {
     if (n.op.empty()) {
@@ -215,6 +371,11 @@ static bool evalRecipe(const Node &n, const Assign &as)
             return true;
         if (n.leaf == "F")
             return false;
+        if (n.leaf[0] == 'x') {
+            XAtom a;
+            parseXAtom(n.leaf, a);
+            return evalXAtom(a, g_x);
+        }
         if (n.leaf[0] == 'n')
             return !as.at("a" + n.leaf.substr(1));
         return as.at(n.leaf);
@@ -241,10 +402,43 @@ static bool evalRecipe(const Node &n, const Assign &as)
     return !all; // not (one child)
 }
 
+static void collectPoints(const Node &n, std::vector<long> &pts)
+{
+    if (n.op.empty()) {
+        if (n.leaf[0] == 'x') {
+            XAtom a;
+            parseXAtom(n.leaf, a);
+            for (long c : a.c)
+                for (long d = -1; d <= 1; d++)
+                    pts.push_back(c + d);
+        }
+        return;
+    }
+    for (auto &c : n.ch)
+        collectPoints(c, pts);
+}
+// the x values to try: every constant of the recipe and its neighbours (0 when x does not occur), thinned so that
+// values x assignments stays below ~4000
+static std::vector<long> xValues(std::vector<long> pts, size_t nkeys)
+{
+    if (pts.empty())
+        pts.push_back(0);
+    std::sort(pts.begin(), pts.end());
+    pts.erase(std::unique(pts.begin(), pts.end()), pts.end());
+    size_t cap = std::max<size_t>(3, 4096 >> nkeys);
+    if (pts.size() > cap) {
+        std::vector<long> t;
+        for (size_t i = 0; i < cap; i++)
+            t.push_back(pts[i * pts.size() / cap]);
+        pts = t;
+    }
+    return pts;
+}
+
 static void collectAtoms(const Node &n, std::vector<std::string> &out)
 {
     if (n.op.empty()) {
-        if (n.leaf == "T" || n.leaf == "F")
+        if (n.leaf == "T" || n.leaf == "F" || n.leaf[0] == 'x')
             return;
         std::string k = n.leaf[0] == 'n' ? "a" + n.leaf.substr(1) : n.leaf;
         if (std::find(out.begin(), out.end(), k) == out.end())
@@ -261,6 +455,9 @@ static std::string dumpB(const RCP<const Basic> &b)
     if (is_a<BooleanAtom>(*b))
         return down_cast<const BooleanAtom &>(*b).get_val() ? "T" : "F";
     std::string nm = atoms().name(*b);
+    if (!nm.empty())
+        return nm;
+    nm = xAtomName(*b);
     if (!nm.empty())
         return nm;
     std::vector<std::string> ch;
@@ -309,6 +506,12 @@ static bool evalObj(const RCP<const Basic> &b, const Assign &as, bool &ok)
             return false;
         }
         return it->second;
+    }
+    nm = xAtomName(*b);
+    if (!nm.empty()) {
+        XAtom a;
+        parseXAtom(nm, a);
+        return evalXAtom(a, g_x);
     }
     if (is_a<And>(*b)) {
         bool r = true;
@@ -468,7 +671,7 @@ static map_basic_basic numericAssignment(const std::vector<std::string> &keys, u
 }
 static std::string maskStr(const std::vector<std::string> &keys, unsigned mask)
 {
-    std::string o;
+    std::string o = "x=" + std::to_string(g_x) + (keys.empty() ? "" : ",");
     for (size_t k = 0; k < keys.size(); k++)
         o += (k ? "," : "") + keys[k] + "=" + (((mask >> k) & 1) ? "1" : "0");
     return o;
@@ -498,7 +701,13 @@ static std::string runFormula(const std::string &body, std::string &oracle)
     if (!cp.empty() && oracle == "ok")
         oracle = "FAIL:canonical:" + cp;
     uint64_t salt = strHash(body);
-    for (unsigned mask = 0; mask < (1u << keys.size()); mask++) {
+    std::vector<long> pts;
+    collectPoints(n, pts);
+    bool hasX = !pts.empty();
+    bool shapeBad = false;
+    for (long xv : xValues(pts, keys.size()))
+    for (unsigned mask = 0; mask < (1u << keys.size()) && !shapeBad; mask++) {
+        g_x = xv;
         Assign as = assignment(keys, mask);
         bool want = evalRecipe(n, as);
         bool ok = true;
@@ -507,6 +716,7 @@ static std::string runFormula(const std::string &body, std::string &oracle)
         if (!ok) {
             if (oracle == "ok")
                 oracle = "FAIL:shape:result contains an object outside the recipe's atoms: " + out;
+            shapeBad = true;
             break;
         }
         if (got != want && oracle == "ok")
@@ -514,6 +724,7 @@ static std::string runFormula(const std::string &body, std::string &oracle)
                      + std::to_string(got) + " under " + maskStr(keys, mask);
         // numeric substitution
         map_basic_basic d = numericAssignment(keys, mask, salt);
+        d[symbol("x")] = integer(xv);
         RCP<const Basic> num = res->subs(d);
         if (!is_a<BooleanAtom>(*num)) {
             if (oracle == "ok")
@@ -524,6 +735,10 @@ static std::string runFormula(const std::string &body, std::string &oracle)
                      + num->__str__() + " under " + maskStr(keys, mask);
     }
     stat("atoms_" + std::to_string(keys.size()));
+    if (hasX)
+        stat("with_x_atoms");
+    if (out.find("x#") != std::string::npos || body.find("x#") != std::string::npos)
+        stat("with_finiteset_atom");
     stat(std::string("result_") + (out[0] == '(' ? out.substr(1, 1) : (out == "T" || out == "F" ? "const" : "atom")));
     return out;
 }
@@ -533,6 +748,7 @@ static std::string runPiecewise(const std::string &body, std::string &oracle)
 {
     std::vector<std::pair<int, Node>> br;
     std::vector<std::string> keys;
+    std::vector<long> pts;
     for (auto &part : split(body, ';')) {
         size_t c = part.find(':');
         if (c == std::string::npos || c < 2 || part[0] != 'e')
@@ -542,6 +758,7 @@ static std::string runPiecewise(const std::string &body, std::string &oracle)
             return "bad-op";
         br.push_back({std::stoi(part.substr(1, c - 1)), n});
         collectAtoms(n, keys);
+        collectPoints(n, pts);
     }
     if (keys.size() > 8)
         return "bad-op";
@@ -559,8 +776,9 @@ static std::string runPiecewise(const std::string &body, std::string &oracle)
     try {
         res = piecewise(vec);
     } catch (DomainError &) {
+        for (long xv : xValues(pts, keys.size()))
         for (unsigned mask = 0; mask < (1u << keys.size()); mask++)
-            if (expected(assignment(keys, mask)) != -1 && oracle == "ok")
+            if ((g_x = xv, expected(assignment(keys, mask))) != -1 && oracle == "ok")
                 oracle = "FAIL:piecewise:DomainError although branch e" + std::to_string(expected(assignment(keys, mask)))
                          + " applies under " + maskStr(keys, mask);
         throw;
@@ -586,7 +804,10 @@ static std::string runPiecewise(const std::string &body, std::string &oracle)
     } else
         out = res->__str__();
     uint64_t salt = strHash(body);
-    for (unsigned mask = 0; mask < (1u << keys.size()); mask++) {
+    bool shapeBad = false;
+    for (long xv : xValues(pts, keys.size()))
+    for (unsigned mask = 0; mask < (1u << keys.size()) && !shapeBad; mask++) {
+        g_x = xv;
         Assign as = assignment(keys, mask);
         int want = expected(as);
         int got = -1;
@@ -605,12 +826,14 @@ static std::string runPiecewise(const std::string &body, std::string &oracle)
         if (!ok) {
             if (oracle == "ok")
                 oracle = "FAIL:shape:unexpected piecewise result " + out;
+            shapeBad = true;
             break;
         }
         if (got != want && oracle == "ok")
             oracle = "FAIL:piecewise:first true branch is e" + std::to_string(want) + " but the result " + out
                      + " selects e" + std::to_string(got) + " under " + maskStr(keys, mask);
         map_basic_basic d = numericAssignment(keys, mask, salt);
+        d[symbol("x")] = integer(xv);
         std::string ns;
         try {
             ns = res->subs(d)->__str__();
@@ -624,209 +847,6 @@ static std::string runPiecewise(const std::string &body, std::string &oracle)
     return out;
 }
 
-// ---------------------------------------------------------------- dom (oracle only; the driver prints SKIP)
-// dom <elems> <conj;conj;…>   x in FiniteSet(elems) and conj…,  conj := lt<c> (x<c) | le<c> | gt<c> | ge<c> | eq<c> |
-//   ne<c> | in<lo>,<hi> (x in [lo,hi]) | fs<e,e,…> (x in FiniteSet) | a<i> | n<i> | m<i> | or:<conj>|<conj> .
-// Checked at every element of every finite set mentioned, at neighbours, and for every value of the extra atoms.
-struct DomConj {
-    std::string kind;
-    long c = 0, c2 = 0;
-    std::vector<long> elems;
-    std::vector<DomConj> alts;
-};
-static bool parseLongs(const std::string &s, std::vector<long> &out)
-{
-    if (s.empty())
-        return true;
-    for (auto &p : split(s, ',')) {
-        if (p.empty())
-            return false;
-        char *end = nullptr;
-        long v = strtol(p.c_str(), &end, 10);
-        if (*end)
-            return false;
-        out.push_back(v);
-    }
-    return true;
-}
-static bool parseConj(const std::string &s, DomConj &c)
-{
-    if (s.compare(0, 3, "or:") == 0) {
-        c.kind = "or";
-        for (auto &p : split(s.substr(3), '|')) {
-            DomConj a;
-            if (!parseConj(p, a))
-                return false;
-            c.alts.push_back(a);
-        }
-        return true;
-    }
-    if (s.size() >= 2 && (s[0] == 'a' || s[0] == 'n' || s[0] == 'm') && leafOk(s)) {
-        c.kind = s;
-        return true;
-    }
-    if (s.size() < 3)
-        return false;
-    c.kind = s.substr(0, 2);
-    std::vector<long> v;
-    if (!parseLongs(s.substr(2), v))
-        return false;
-    if (c.kind == "fs") {
-        c.elems = v;
-        return true;
-    }
-    if (c.kind == "in") {
-        if (v.size() != 2)
-            return false;
-        c.c = v[0];
-        c.c2 = v[1];
-        return c.c < c.c2;
-    }
-    if (v.size() != 1)
-        return false;
-    c.c = v[0];
-    return c.kind == "lt" || c.kind == "le" || c.kind == "gt" || c.kind == "ge" || c.kind == "eq" || c.kind == "ne";
-}
-static RCP<const Boolean> buildConj(const DomConj &c, const RCP<const Basic> &x)
-{
-    if (c.kind == "or") {
-        set_boolean s;
-        for (auto &a : c.alts)
-            s.insert(buildConj(a, x));
-        return logical_or(s);
-    }
-    if (leafOk(c.kind)) {
-        int i = std::stoi(c.kind.substr(1));
-        return c.kind[0] == 'm' ? memAtom(i) : relAtom(i, c.kind[0] == 'n');
-    }
-    if (c.kind == "fs") {
-        set_basic e;
-        for (long v : c.elems)
-            e.insert(integer(v));
-        return contains(x, finiteset(e));
-    }
-    if (c.kind == "in")
-        return contains(x, interval(integer(c.c), integer(c.c2)));
-    RCP<const Basic> k = integer(c.c);
-    if (c.kind == "lt")
-        return Lt(x, k);
-    if (c.kind == "le")
-        return Le(x, k);
-    if (c.kind == "gt")
-        return Gt(x, k);
-    if (c.kind == "ge")
-        return Ge(x, k);
-    if (c.kind == "eq")
-        return Eq(x, k);
-    return Ne(x, k);
-}
-static bool evalConj(const DomConj &c, long x, const Assign &as)
-{
-    if (c.kind == "or") {
-        for (auto &a : c.alts)
-            if (evalConj(a, x, as))
-                return true;
-        return false;
-    }
-    if (leafOk(c.kind))
-        return c.kind[0] == 'n' ? !as.at("a" + c.kind.substr(1)) : as.at(c.kind);
-    if (c.kind == "fs")
-        return std::find(c.elems.begin(), c.elems.end(), x) != c.elems.end();
-    if (c.kind == "in")
-        return c.c <= x && x <= c.c2;
-    if (c.kind == "lt")
-        return x < c.c;
-    if (c.kind == "le")
-        return x <= c.c;
-    if (c.kind == "gt")
-        return x > c.c;
-    if (c.kind == "ge")
-        return x >= c.c;
-    if (c.kind == "eq")
-        return x == c.c;
-    return x != c.c;
-}
-static void conjPoints(const DomConj &c, std::vector<long> &pts, std::vector<std::string> &keys)
-{
-    if (c.kind == "or") {
-        for (auto &a : c.alts)
-            conjPoints(a, pts, keys);
-        return;
-    }
-    if (leafOk(c.kind)) {
-        std::string k = c.kind[0] == 'n' ? "a" + c.kind.substr(1) : c.kind;
-        if (std::find(keys.begin(), keys.end(), k) == keys.end())
-            keys.push_back(k);
-        return;
-    }
-    for (long v : c.elems)
-        pts.push_back(v);
-    pts.push_back(c.c);
-    if (c.kind == "in")
-        pts.push_back(c.c2);
-}
-
-static std::string runDom(const std::string &body, std::string &oracle)
-{
-    auto w = split(body, ' ');
-    if (w.size() != 2)
-        return "bad-op";
-    std::vector<long> elems;
-    if (!parseLongs(w[0], elems) || elems.empty())
-        return "bad-op";
-    std::vector<DomConj> conj;
-    if (!w[1].empty() && w[1] != "-")
-        for (auto &p : split(w[1], ';')) {
-            DomConj c;
-            if (!parseConj(p, c))
-                return "bad-op";
-            conj.push_back(c);
-        }
-    RCP<const Basic> x = symbol("x");
-    set_basic fe;
-    for (long v : elems)
-        fe.insert(integer(v));
-    set_boolean s;
-    s.insert(contains(x, finiteset(fe)));
-    for (auto &c : conj)
-        s.insert(buildConj(c, x));
-    stat("api_and_domain");
-    RCP<const Boolean> res = logical_and(s);
-    std::vector<long> pts(elems);
-    std::vector<std::string> keys;
-    for (auto &c : conj)
-        conjPoints(c, pts, keys);
-    std::vector<long> all;
-    for (long p : pts)
-        for (long dlt = -1; dlt <= 1; dlt++)
-            all.push_back(p + dlt);
-    std::sort(all.begin(), all.end());
-    all.erase(std::unique(all.begin(), all.end()), all.end());
-    uint64_t salt = strHash(body);
-    for (long xv : all)
-        for (unsigned mask = 0; mask < (1u << keys.size()); mask++) {
-            Assign as = assignment(keys, mask);
-            bool want = std::find(elems.begin(), elems.end(), xv) != elems.end();
-            for (auto &c : conj)
-                want = want && evalConj(c, xv, as);
-            map_basic_basic d = numericAssignment(keys, mask, salt);
-            d[x] = integer(xv);
-            RCP<const Basic> num = res->subs(d);
-            stat("assignments");
-            if (!is_a<BooleanAtom>(*num)) {
-                if (oracle == "ok")
-                    oracle = "FAIL:domain:result " + res->__str__() + " does not evaluate to a constant at x="
-                             + std::to_string(xv) + " " + maskStr(keys, mask) + ": " + num->__str__();
-            } else if (down_cast<const BooleanAtom &>(*num).get_val() != want && oracle == "ok")
-                oracle = "FAIL:domain:conjunction is " + std::to_string(want) + " but the result " + res->__str__()
-                         + " evaluates to " + num->__str__() + " at x=" + std::to_string(xv) + " "
-                         + maskStr(keys, mask);
-        }
-    stat(std::string("dom_result_") + (is_a<Contains>(*res) ? "contains" : is_a<And>(*res) ? "and"
-                                       : is_a<BooleanAtom>(*res) ? "const" : "other"));
-    return "SKIP";
-}
-
 std::string hx_run(const std::string &line, std::string &oracle)
 {
     size_t sp = line.find(' ');
@@ -837,8 +857,6 @@ std::string hx_run(const std::string &line, std::string &oracle)
         return runFormula(body, oracle);
     if (cmd == "pw")
         return runPiecewise(body, oracle);
-    if (cmd == "dom")
-        return runDom(body, oracle);
     return "bad-op";
 }
 
@@ -882,43 +900,6 @@ static std::string randFormula(Rng &r, const Pool &p, int depth, unsigned constP
     return o + ")";
 }
 
-static std::string randConj(Rng &r, bool allowOr)
-{
-    unsigned k = r.below(allowOr ? 12 : 10);
-    auto c = [&]() { return std::to_string(r.range(-2, 6)); };
-    switch (k) {
-        case 0:
-            return "lt" + c();
-        case 1:
-            return "le" + c();
-        case 2:
-            return "gt" + c();
-        case 3:
-            return "ge" + c();
-        case 4:
-            return "eq" + c();
-        case 5:
-            return "ne" + c();
-        case 6: {
-            long lo = r.range(-2, 4);
-            return "in" + std::to_string(lo) + "," + std::to_string(lo + 1 + (long)r.below(4));
-        }
-        case 7: {
-            std::string o = "fs";
-            int n = 1 + (int)r.below(4);
-            for (int i = 0; i < n; i++)
-                o += (i ? "," : "") + std::to_string(r.range(-1, 5));
-            return o;
-        }
-        case 8:
-            return (r.coin() ? "a" : "n") + std::to_string(r.below(4));
-        case 9:
-            return "m" + std::to_string(r.below(2));
-        default:
-            return "or:" + randConj(r, false) + "|" + randConj(r, false);
-    }
-}
-
 void hx_gen(Rng &r, const std::string &tier)
 {
     bool th = tier == "thorough";
@@ -951,9 +932,9 @@ void hx_gen(Rng &r, const std::string &tier)
                             emit(std::string("f (") + o1 + " (" + o2 + " " + l1 + " " + l2 + ") " + l3 + ")", "sys-depth2");
                     }
     // random formulas, depth <= 4, <= 6 distinct atoms
-    int n = th ? 40000 : 5000;
+    int n = th ? 150000 : 12000;
     for (int i = 0; i < n; i++) {
-        int natoms = 1 + (int)r.below(6);
+        int natoms = 1 + (int)r.below(th && r.coin(1, 10) ? 8 : 6);
         Pool p = randomPool(r, natoms);
         int depth = 1 + (int)r.below(4);
         std::string f = randFormula(r, p, depth, r.coin(1, 3) ? 12 : 3);
@@ -962,7 +943,7 @@ void hx_gen(Rng &r, const std::string &tier)
         emit("f " + f, "rand-depth" + std::to_string(depth));
     }
     // xor-heavy: flattening, duplicate cancellation, negated arguments
-    for (int i = 0; i < (th ? 6000 : 1200); i++) {
+    for (int i = 0; i < (th ? 25000 : 3000); i++) {
         Pool p = randomPool(r, 1 + (int)r.below(4));
         std::function<std::string(int)> g = [&](int d) -> std::string {
             if (d == 0 || r.coin(1, 3))
@@ -988,7 +969,7 @@ void hx_gen(Rng &r, const std::string &tier)
     emit("pw e0:a0;e1:a0;e2:n0", "pw-sys");
     emit("pw e0:F;e1:(and a0 n0)", "pw-sys");
     emit("pw e0:a0;e1:T;e2:a1", "pw-sys");
-    for (int i = 0; i < (th ? 6000 : 1000); i++) {
+    for (int i = 0; i < (th ? 20000 : 2500); i++) {
         Pool p = randomPool(r, 1 + (int)r.below(4));
         int m = 1 + (int)r.below(5);
         std::string o;
@@ -996,22 +977,76 @@ void hx_gen(Rng &r, const std::string &tier)
             o += (j ? ";" : "") + ("e" + std::to_string(r.below(4))) + ":" + randFormula(r, p, (int)r.below(3), 25);
         emit("pw " + o, "rand-piecewise");
     }
-    // FiniteSet-domain rule of and_or (oracle only)
-    emit("dom 1,2,3 -", "dom-sys");
-    emit("dom 1,2,3 lt3", "dom-sys");
-    emit("dom 1,2,3 lt3;a0", "dom-sys");
-    emit("dom 1,2,3 gt5", "dom-sys");
-    emit("dom 1,2 fs2,3", "dom-sys");
-    emit("dom 1,2,3 or:lt2|a0", "dom-sys");
-    for (int i = 0; i < (th ? 5000 : 800); i++) {
-        std::string e;
+    // FiniteSet-domain rule of and_or<And>: one Contains(x, FiniteSet) conjunct next to conditions on x
+    emit("f (and x#1,2,3)", "dom-sys");
+    emit("f (and x#1,2,3 x<3)", "dom-sys");
+    emit("f (and x#1,2,3 x<3 a0)", "dom-sys");
+    emit("f (and x#1,2,3 x>5)", "dom-sys");
+    emit("f (and x#1,2,3 (or x<2 a0))", "dom-sys");
+    emit("f (and x#1,2 x#2,3)", "dom-sys");
+    emit("f (and x#1,2,3 (or x#1,5 a0) x!=2)", "dom-sys");
+    emit("f (and x#0,1,2,3 x@1,4 (not m0))", "dom-sys");
+    emit("f (and (and x#1,2,3 a0) (and x<3 a1))", "dom-sys");
+    emit("f (nand x#1,2,3 x>=2)", "dom-sys");
+    emit("pw e0:(and x#1,2 x<2);e1:x#1,2;e2:T", "dom-sys");
+    auto xatom = [&](bool allowFs) -> std::string {
+        static const char *rel[] = {"<", ">=", "<=", ">", "=", "!="};
+        unsigned k = r.below(allowFs ? 10 : 8);
+        if (k < 6)
+            return std::string("x") + rel[k] + std::to_string(r.range(-2, 6));
+        if (k < 8) {
+            long lo = r.range(-2, 4);
+            return "x@" + std::to_string(lo) + "," + std::to_string(lo + 1 + (long)r.below(4));
+        }
+        std::string o = "x#";
         int m = 1 + (int)r.below(4);
+        for (int j = 0; j < m; j++)
+            o += (j ? "," : "") + std::to_string(r.range(-1, 5));
+        return o;
+    };
+    std::function<std::string(const Pool &, int, bool)> xform = [&](const Pool &p, int d, bool allowFs) -> std::string {
+        if (d == 0 || r.coin(1, 2))
+            return r.coin(2, 3) ? xatom(allowFs) : r.pick(p.leaves);
+        static const char *o2[] = {"or", "or", "and", "xor", "not", "nor", "nand", "xnor"};
+        std::string op = o2[r.below(8)];
+        int m = op == "not" ? 1 : 2 + (int)r.below(2);
+        std::string o = "(" + op;
+        for (int j = 0; j < m; j++)
+            o += " " + xform(p, d - 1, allowFs);
+        return o + ")";
+    };
+    for (int i = 0; i < (th ? 30000 : 4000); i++) {
+        Pool p = randomPool(r, 1 + (int)r.below(3));
+        // exactly one top-level FiniteSet conjunct (the modelled fragment); FiniteSet atoms below Or/Not/Xor allowed
+        std::string e = "x#";
+        int m = 1 + (int)r.below(5);
         for (int j = 0; j < m; j++)
             e += (j ? "," : "") + std::to_string(r.range(-1, 5));
         int k = (int)r.below(4);
-        std::string c;
-        for (int j = 0; j < k; j++)
-            c += (j ? ";" : "") + randConj(r, true);
-        emit("dom " + e + " " + (c.empty() ? "-" : c), "rand-domain");
+        std::vector<std::string> conj;
+        conj.push_back(e);
+        for (int j = 0; j < k; j++) {
+            std::string c = xform(p, 2, true);
+            if (c.compare(0, 2, "x#") == 0) // a second top-level FiniteSet conjunct: hash-order dependent
+                c = "(or " + c + " " + r.pick(p.leaves) + ")";
+            conj.push_back(c);
+        }
+        for (size_t j = conj.size(); j > 1; j--)
+            std::swap(conj[j - 1], conj[r.below(j)]);
+        std::string f = "(and " + join(conj, " ") + ")";
+        unsigned w = r.below(10);
+        if (w == 0)
+            f = "(not " + f + ")";
+        else if (w == 1)
+            f = "(or " + f + " " + r.pick(p.leaves) + ")";
+        else if (w == 2)
+            f = "(and " + f + " " + xform(p, 1, false) + ")";
+        emit("f " + f, "rand-domain");
+    }
+    // free mixtures of x-atoms and opaque atoms (several FiniteSet conjuncts may meet: compared only by the oracle)
+    for (int i = 0; i < (th ? 20000 : 2500); i++) {
+        Pool p = randomPool(r, 1 + (int)r.below(3));
+        std::string f = "(" + std::string(ops[r.below(6)]) + " " + xform(p, 3, true) + " " + xform(p, 3, true) + ")";
+        emit("f " + f, "rand-xmix");
     }
 }
